@@ -34,6 +34,13 @@ NOT_DECIDED = [
     "which wave vectors share a rounded |q| for incommensurate box edges (the 1e-6 rounding is the uninterpreted round6 of the pandas contract)",
     "floating-point accuracy of exp/cos/sin and of the accumulated sums (A1: floats are reals)",
     "group means: non-emptiness of every returned group is part of the assumed groupby contract",
+    "default wave-vector set (choosewavevector) for all numofq: only a bounded run (numofq <= 12 in 2D, <= 6 in 3D) — the compaction "
+    "loop `qvectors[index] = ...; index += 1` needs a written invariant with ghost rank arrays",
+    "sum rule N S = sum_a N_a S_aa + 2 sum_{a<b} sqrt(N_a N_b) S_ab on the returned (rounded, |q|-averaged) numbers: proved only as the "
+    "per-frame identity and induction-step lemmas on the spec terms (holds before rounding by the modes+normalisation clauses)",
+    "sign of the group mean of the diagonal columns (needs 'sum of non-negative terms' over a symbolic group): proved per vector, "
+    "the induction step is a lemma",
+    "AssertionError of sq.__init__ when particle number or box change between frames (the symbolic trajectory has them constant)",
 ]
 TRUSTED = [
     "assumed pandas contracts (pyvc/pandas_model.py): DataFrame(0, index=df.index, columns=...), column get/set, `df[c] += v`, `df[c] /= x`, "
@@ -195,6 +202,8 @@ class Method(Unit):
         names = ["columns", "q:key=round6|2pi n/L|", "q:returned=key", "file=returned", "qvectors-file=per-vector-values"]
         for name, ab in columns(self.K):
             names += [f"{name}:modes", f"{name}:normalisation", f"{name}:rounded", f"{name}:group-mean"]
+            if ab is None or ab[0] == ab[1]:
+                names.append(f"{name}:per-vector-value>=0")
         return names
 
     def ensures(self, ctx, case, inp, out):
@@ -235,6 +244,11 @@ class Method(Unit):
                     yield (f"{name}:modes",) + goal
                 gn, _ = sv.generalize(sv.implies(inm, sv.cmp("==", v, sp.S(ab, raw))), [raw], "raw")
                 yield f"{name}:normalisation", gn, {"ring_only": True}
+                if ab is None or ab[0] == ab[1]:
+                    # diagonal terms: raw = sum_s |rho_a|^2 >= 0 (modes clause + lemmas |rho|^2 >= 0, sum of non-negative terms), hence the
+                    # per-vector value and its round6 are >= 0
+                    gp, _ = sv.generalize(sv.implies(sv.and_(inm, sv.cmp(">=", raw, 0)), sv.cmp(">=", rv, 0)), [raw], "raw")
+                    yield f"{name}:per-vector-value>=0", gp
             # the returned value: mean of the rounded per-vector values over the vectors whose key is the row's key
             kg = Kf(g)
             num = Sum(0, M, lambda t_: sv.ite(sv.cmp("==", keys((t_,)), kg), gb["values"][name]((t_,)), 0))
@@ -795,8 +809,52 @@ def replay_extra(rec):
 
 
 def lemmas():
+    """lemmas on fresh symbols (no assumptions): the algebra behind "diagonal terms are non-negative" and the sum rule
+    N S = sum_a N_a S_aa + 2 sum_{a<b} sqrt(N_a N_b) S_ab (before rounding), each as base/step of the inductions over particles / frames"""
     out = []
+    x, y, S, f = sv.real("x"), sv.real("y"), sv.real("S_k"), sv.real("f_k")
+    out.append(("lemma:|rho|^2=re^2+im^2>=0", sv.cmp(">=", sv.add(sv.mul(x, x), sv.mul(y, y)), 0)))
+    out.append(("lemma:sum-of-non-negative-terms:induction-step", sv.implies(sv.and_(S >= 0, f >= 0), sv.cmp(">=", sv.add(S, f), 0))))
+    raw, T, Na = sv.real("raw"), sv.integer("T"), sv.integer("N_a")
+    out.append(("lemma:raw>=0=>S_aa>=0", sv.implies(sv.and_(raw >= 0, T >= 1, Na >= 1), sv.cmp(">=", sv.mul(sv.div(raw, sv.mul(T, Na)), sv.mul(T, Na)), 0))))
+    for K in (2, 3, 4, 5):
+        t = sv.integer("type_i")
+        e = sv.real("e_i")
+        # induction step over particles of rho = sum_a rho_a: a particle of type t in 1..K contributes to exactly one species mode
+        contrib = _sum([sv.ite(sv.cmp("==", t, a), e, 0) for a in range(1, K + 1)])
+        out.append((f"lemma:K={K}:rho=sum_a-rho_a:induction-step", sv.implies(sv.and_(t >= 1, t <= K), sv.cmp("==", contrib, e))))
+        re = [sv.real(f"re_{a}") for a in range(1, K + 1)]
+        im = [sv.real(f"im_{a}") for a in range(1, K + 1)]
+        R, I = _sum(re), _sum(im)
+        lhs = sv.add(sv.mul(R, R), sv.mul(I, I))
+        rhs = _sum([sv.add(sv.mul(re[a], re[a]), sv.mul(im[a], im[a])) for a in range(K)])
+        rhs = sv.add(rhs, sv.mul(2, _sum([sv.add(sv.mul(re[a], re[b]), sv.mul(im[a], im[b])) for a in range(K) for b in range(a + 1, K)])))
+        # per frame: |sum_a rho_a|^2 = sum_a |rho_a|^2 + 2 sum_{a<b} Re[rho_a conj rho_b]; summed over frames and divided by T this is
+        # N S = sum_a N_a S_aa + 2 sum_{a<b} sqrt(N_a N_b) S_ab by the normalisation clauses (S_ab = raw_ab / (T sqrt(N_a N_b)))
+        out.append((f"lemma:K={K}:sum-rule:per-frame-identity", sv.cmp("==", lhs, rhs)))
     return out
 
 
-MANIFEST = {"text": "", "note": ""}
+MANIFEST = {
+    "text": "sq.unary/binary/ternary/quarternary/quinary (real ASTs, re-read every run; symbolic frame number T, particle number N, "
+            "number M of supplied integer wave vectors, positions, box edges; d in {2,3}; with/without CSV and per-vector file; "
+            "unary also with six species): at an arbitrary wave vector m the value that enters the |q|-average of every column is "
+            "round6(raw_ab(m) / (T sqrt(N_a N_b))) (diagonal: T N_a, total: T N), where (modes) the Sigma-term accumulated by the real "
+            "frame loop, particle loop and if/elif routing equals sum_s Re[rho_a(s,m) conj rho_b(s,m)], rho_a = sum over a-particles "
+            "of exp(-i q_m.r), q_m = 2 pi n_m / L component-wise (Sigma-extensionality over particles and frames; routing conditions "
+            "vs [type = a] under type ids in 1..K), (normalisation) for any value of that sum (ring normal form); every returned "
+            "column is the mean of these rounded values over the vectors whose round6(|q_m|) is the row's key, the q column is the key; "
+            "columns exist exactly for a <= b <= K in the stated order; CSV = returned table; _qvectors.csv = integer vectors, |q| and the "
+            "unrounded per-vector values; diagonal and total per-vector values are >= 0; sq.getresults dispatches on the species number "
+            "(1..5, >5 -> total only); sq.__init__ establishes q = 2 pi n / L, |q|, df_qvector, N, T, species counts = #{i: type_i = id} "
+            "and calls choosewavevector(ndim, int(2 qrange / min(2 pi / L)), onlypositive) for the default set; lemmas: per-frame "
+            "sum-rule identity |sum_a rho_a|^2 = sum_a |rho_a|^2 + 2 sum_{a<b} Re[rho_a conj rho_b] and the induction steps of "
+            "rho = sum_a rho_a and of 'sum of non-negative terms'.",
+    "note": "floats as reals (A1); assumed: pandas frame/round/groupby-mean/to_csv contracts, np.unique (relational), np.linalg.norm, "
+            "exp(-ix) = cos x - i sin x, math.modf(sqrt(k))[0] == 0 iff k is a perfect square; the methods take the invariant of "
+            "sq.__init__ as precondition with type ids 1..K; choosewavevector (default set = non-zero integer vectors of "
+            "[-floor(n/2), floor(n/2))^d with integer norm, onlypositive True/'x'/'y'/'z') is BOUNDED only: numofq in "
+            "{0,1,2,3,5,8,12} (d=2) and {0,1,3,4,6} (d=3), real AST executed by the engine, reported separately; the sum rule is "
+            "proved as lemmas on the spec terms, not chained to the rounded output; the raising behaviour of __init__ for varying "
+            "particle number / box is not under contract",
+}
